@@ -20,6 +20,9 @@ type MockFactory struct {
 	OnConnect func(url string) error
 	// OnAccept runs inside every Accept call before it starts waiting.
 	OnAccept func(a *MockAcceptor)
+	// AcceptorCloseErr, if set, is returned by every acceptor's Close (which closes all the same): e.g. a failed unlink of
+	// a unix socket file.
+	AcceptorCloseErr error
 	// Wrap: hand out the library's own transport wrapper NewTransport(conn, r, w) around the recording
 	// transport (which then plays the connection) instead of the recording transport itself.
 	Wrap *[2]int
@@ -124,7 +127,7 @@ func (a *MockAcceptor) FailNext(err error) {
 func (a *MockAcceptor) Close() error {
 	atomic.AddInt32(&a.closeCalls, 1)
 	a.once.Do(func() { close(a.closed) })
-	return nil
+	return a.f.AcceptorCloseErr
 }
 
 // Inject offers a new inbound connection; it returns the transport once an
